@@ -259,8 +259,9 @@ class ByteStoreEngine(Engine):
                 # an edit that brings in a character the declared codec cannot hold
                 steps.append({"op": "unencodable", "path": p, "held": held, "extra": rng.choice(["日", "Ж", "€", "😀", "é"])})
             elif k == "unwind":
-                n = rng.randint(2, 4)
-                steps.extend([{"op": "undo"}] * n + [{"op": "redo"}] * n)
+                n = rng.randint(1, 4)
+                mid = [{"op": "reopen"}] if rng.random() < 0.4 else []  # redo from a reloaded redo list
+                steps.extend([{"op": "undo"}] * n + mid + [{"op": "redo"}] * n)
             elif k in ("undo", "redo", "reopen"):
                 steps.append({"op": k})
             elif k == "flip":
